@@ -646,10 +646,8 @@ class CellsImpl(*_cells_impl_base):
         )
         Derivable.__init__(self, is_derived)
 
-        if add_to_space:
-            space._cells.set_item(name, self)
-
         # Set formula
+        # This may raise an error, so do it before adding self to space.
         if base:
             self.formula = base.formula
         elif formula is None:
@@ -658,6 +656,9 @@ class CellsImpl(*_cells_impl_base):
             self.formula = formula.__class__(formula, name=name)
         else:
             self.formula = Formula(formula, name=name)
+
+        if add_to_space:
+            space._cells.set_item(name, self)
 
         if base:
             self.is_cached = base.is_cached
